@@ -196,22 +196,40 @@ func vfClassifyProd(run *vfProdRun, r *vfcore.Rec) (failedProduce bool, firstFai
 
 func vfOracleC01(run *vfProdRun) *vfcore.Failure {
 	c := run.c
+	// every clause is judged; the failures are handed on together (Failure.Also) so that a symptom explained by a known
+	// finding cannot hide one that is not
+	var fails []*vfcore.Failure
+	done := func() *vfcore.Failure {
+		if len(fails) == 0 {
+			return nil
+		}
+		fails[0].Also = append(fails[0].Also, fails[1:]...)
+		return fails[0]
+	}
 	if len(run.panics) > 0 {
-		return run.fail("panic-in-pipeline", "PanicHandler caught: %v", run.panics)
+		fails = append(fails, run.fail("panic-in-pipeline", "PanicHandler caught: %v", run.panics))
 	}
 	if !run.created {
-		return nil
+		return done()
 	}
 	if run.hang != "" {
-		return run.fail("hang", "%s (nothing pending in the simulator, no relevant event for %v)", run.hang, vfTq())
+		fails = append(fails, run.fail("hang", "%s (nothing pending in the simulator, no relevant event for %v)", run.hang, vfTq()))
 	}
 	if c.Sync > 0 {
-		return vfOracleC01Sync(run)
+		if len(fails) == 0 {
+			return vfOracleC01Sync(run)
+		}
+		return done()
 	}
 	count := map[int][]vfOutcome{}
+	stranger := false
 	for _, o := range run.outcomes {
 		if o.Stranger != "" {
-			return run.fail("stranger-event", "outcome %v: %s", map[bool]string{true: "success", false: "error"}[o.Ok], o.Stranger)
+			if !stranger {
+				fails = append(fails, run.fail("stranger-event", "outcome %v: %s", map[bool]string{true: "success", false: "error"}[o.Ok], o.Stranger))
+				stranger = true
+			}
+			continue
 		}
 		count[o.Idx] = append(count[o.Idx], o)
 	}
@@ -219,17 +237,23 @@ func vfOracleC01(run *vfProdRun) *vfcore.Failure {
 	for _, i := range run.submitted {
 		submitted[i] = true
 	}
+	double := false
 	for idx, os := range count {
-		if !submitted[idx] {
-			return run.fail("stranger-event", "outcome for message %d which was never submitted", idx)
+		if !submitted[idx] && !stranger {
+			fails = append(fails, run.fail("stranger-event", "outcome for message %d which was never submitted", idx))
+			stranger = true
 		}
-		if len(os) > 1 {
-			return run.fail("double-outcome", "message %d got %d terminal events: %+v", idx, len(os), os)
+		if len(os) > 1 && !double {
+			fails = append(fails, run.fail("double-outcome", "message %d got %d terminal events: %+v", idx, len(os), os))
+			double = true
 		}
+	}
+	if len(run.panics) > 0 || run.hang != "" {
+		return done() // outcomes are missing by construction when the pipeline died or never finished
 	}
 	logged := vfLoggedIds(run)
 	for _, i := range run.submitted {
-		if len(count[i]) == 1 {
+		if len(count[i]) >= 1 {
 			continue
 		}
 		if c.Conf.NoSuccesses {
@@ -241,11 +265,13 @@ func vfOracleC01(run *vfProdRun) *vfcore.Failure {
 			if c.Conf.Acks == 0 || logged[i] {
 				continue
 			}
-			return run.fail("lost-outcome", "message %d: no terminal event, not returned by Close and not in any log", i)
+			fails = append(fails, run.fail("lost-outcome", "message %d: no terminal event, not returned by Close and not in any log", i))
+			break
 		}
-		return run.fail("lost-outcome", "message %d was accepted on Input() but no success or error event arrived before the channels closed", i)
+		fails = append(fails, run.fail("lost-outcome", "message %d was accepted on Input() but no success or error event arrived before the channels closed", i))
+		break
 	}
-	return nil
+	return done()
 }
 
 func vfLoggedIds(run *vfProdRun) map[int]bool {
